@@ -23,12 +23,12 @@ theorem openStr_osError {S : FileSys} {s : String} {n : Nat} (cur : Option Strin
 
 theorem openStr_osSub {S : FileSys} {s c : String} (cur : Option String) (raw : Option Bool)
     (h : openRead S s = .osSub c) :
-    openStr S cur s raw = (fallback raw s (.osSub c (S.expanduser s)) false, cur) := by
-  simp [openStr, h]
+    openStr S cur s raw = (.error (.osSub c (S.expanduser s)), cur) := by
+  simp [openStr, h, fallback]
 
 theorem openStr_readError {S : FileSys} {s : String} (cur : Option String) (raw : Option Bool)
     (h : openRead S s = .readError) :
-    openStr S cur s raw = (.error (.decode (S.expanduser s)), some s) := by
+    openStr S cur s raw = (.error (.decode (S.expanduser s)), cur) := by
   simp [openStr, h]
 
 /-- the outcome does not depend on `_current_file` at entry -/
@@ -40,12 +40,11 @@ theorem openStep_fst (S : FileSys) (cur cur' : Option String) (src : SourceArg) 
     (openStep S cur src raw).1 = (openStep S cur' src raw).1 := by
   cases src <;> simp only [openStep] <;> split <;> first | rfl | exact openStr_fst ..
 
-/-- `_current_file` after the open block: unchanged, or the name of the string tried -/
+/-- `_current_file` after the open block: unchanged, or the block read the file -/
 theorem openStr_snd (S : FileSys) (cur : Option String) (s : String) (raw : Option Bool) :
-    (openStr S cur s raw).2 = cur ∨
-      ((openStr S cur s raw).2 = some s ∧ ((∃ t, openRead S s = .content t) ∨ openRead S s = .readError)) := by
+    (openStr S cur s raw).2 = cur ∨ ((openStr S cur s raw).2 = some s ∧ ∃ t, openRead S s = .content t) := by
   unfold openStr
-  cases h : openRead S s <;> simp
+  cases openRead S s <;> simp
 
 /-- with `raw_yaml=True` the file system is not consulted -/
 theorem openStep_rawTrue_str (S : FileSys) (cur : Option String) (s : String) :
@@ -88,29 +87,27 @@ theorem addSource_calls {δ : Type} (S : FileSys) (P : Parser δ) (env : Env) (s
   | error e => exact .inl rfl
   | ok text => exact .inr ⟨_, rfl, rfl⟩
 
-/-- on a builder whose current file is None, an exception raised by the open block leaves it None — unless the
-    exception comes from `read()` -/
-theorem openStr_error_snd {S : FileSys} {s : String} {raw : Option Bool} {e : SrcErr}
-    (hne : openRead S s ≠ .readError) (he : (openStr S none s raw).1 = .error e) :
-    (openStr S none s raw).2 = none := by
+/-- an exception raised by the open block leaves `_current_file` as it was (the name is stored only after a
+    successful read) -/
+theorem openStr_error_snd {S : FileSys} {cur : Option String} {s : String} {raw : Option Bool} {e : SrcErr}
+    (he : (openStr S cur s raw).1 = .error e) : (openStr S cur s raw).2 = cur := by
   unfold openStr at he ⊢
   cases h : openRead S s <;> simp_all
 
-theorem openStep_error_snd {S : FileSys} {src : SourceArg} {raw : Option Bool} {e : SrcErr}
-    (hread : ∀ s, src = .str s ∨ src = .path s → openRead S s ≠ .readError)
-    (he : (openStep S none src raw).1 = .error e) : (openStep S none src raw).2 = none := by
+theorem openStep_error_snd {S : FileSys} {cur : Option String} {src : SourceArg} {raw : Option Bool} {e : SrcErr}
+    (he : (openStep S cur src raw).1 = .error e) : (openStep S cur src raw).2 = cur := by
   cases src with
   | fileObj c => by_cases hr : rawTrue raw = true <;> simp [openStep, hr]
   | path s =>
     by_cases hr : rawTrue raw = true
     · simp [openStep, hr]
     · simp only [openStep, if_neg hr] at he ⊢
-      exact openStr_error_snd (hread s (.inr rfl)) he
+      exact openStr_error_snd he
   | str s =>
     by_cases hr : rawTrue raw = true
     · simp [openStep, hr] at he
     · simp only [openStep, if_neg hr] at he ⊢
-      exact openStr_error_snd (hread s (.inl rfl)) he
+      exact openStr_error_snd he
 
 theorem addLoop_singleton {δ : Type} (S : FileSys) (P : Parser δ) (env : Env) (st : BState δ) (a : Args) :
     addLoop S P env st [a] = addSource S P env st a := by
